@@ -1,7 +1,109 @@
-(* props/C18.v — placeholder while the invariance lemmas are being closed. *)
-From Coq Require Import List NArith ZArith String.
+(* props/C18.v — API calls are pure: no cross-talk across histories.
+
+   Models: Glue.v ([resolve_slots] = FormatString.resolve WITH the scratch slots
+   ExpressionInfo.resolved_value that live inside the shared template; [resolve_history] = a
+   sequence of resolve() calls with different symbol tables on ONE shared format string),
+   FormatStr.v ([resolve] = the slot-free function), ParamSpace.v (iterator worlds, _len memo),
+   Generated.v (class configuration).  Proofs: GlueProofs.v, ParamSpaceProofs.v.
+   Every other API function of the property (decode, preprocess, create_job, model_to_object,
+   graph) is a Gallina FUNCTION of its arguments in its model (Accept.v, JobParams.v, CreateJob.v,
+   Export.v, DepGraph.v): "result depends only on the arguments" is their type; the only shared
+   mutable state that exists in the implementation is modelled here.  Threads: see DESIGN.md §9. *)
+From Coq Require Import List NArith ZArith Bool String.
 Import ListNotations.
-Require Import OJD.Base OJD.Json OJD.Schema OJD.Generated.
+Require Import OJD.Base OJD.Lexer OJD.Json OJD.Schema OJD.Generated OJD.FormatStr OJD.Glue OJD.GlueProofs
+               OJD.ParamSpace OJD.ParamSpaceSpec OJD.ParamSpaceProofs.
 Local Open Scope string_scope.
-Example C18_schema_has_root : match lookup_cls Generated.schema "JobTemplate" with Some _ => True | None => False end.
-Proof. vm_compute. exact I. Qed.
+
+(* one resolve() call: whatever the slots held before (values of an earlier job, or nothing), the
+   result is the slot-free resolve, and the template keeps one slot per expression *)
+Theorem C18_resolve_slots : forall sigma its slots,
+  List.length slots = n_iexpr its ->
+  snd (resolve_slots sigma its slots) = resolve_items sigma its /\
+  List.length (fst (resolve_slots sigma its slots)) = List.length slots.
+Proof. exact resolve_slots_spec. Qed.
+Print Assumptions C18_resolve_slots.
+
+(* [n_iexpr (items f)] is the number of ExpressionInfo records of f *)
+Theorem C18_slot_count : forall f, n_exprs f = n_iexpr (items f).
+Proof. exact n_exprs_items. Qed.
+Print Assumptions C18_slot_count.
+
+(* any history of calls on a shared format string, starting from any slot contents: each call
+   returns what it returns in isolation *)
+Theorem C18_resolve_history : forall f sigmas slots,
+  List.length slots = n_exprs f ->
+  resolve_history f slots sigmas = map (fun s => resolve s f) sigmas.
+Proof. exact resolve_history_spec. Qed.
+Print Assumptions C18_resolve_history.
+
+(* after a successful call every slot holds the value of THIS call (write-then-read inside one
+   call; nothing of an earlier call survives) *)
+Theorem C18_slots_overwritten : forall sigma its slots r,
+  List.length slots = n_iexpr its ->
+  snd (resolve_slots sigma its slots) = Ok r ->
+  fst (resolve_slots sigma its slots)
+  = flat_map (fun it => match it with
+                        | IExpr _ _ _ n => [match expr_evaluate sigma n with Ok v => Some v | Raise _ => None end]
+                        | ILit _ => []
+                        end) its.
+Proof. exact resolve_slots_ok_written. Qed.
+Print Assumptions C18_slots_overwritten.
+
+(* every model class is frozen and forbids extra attributes (as configured in the live classes;
+   that pydantic then rejects assignment is library behaviour, checked by the harness) *)
+Theorem C18_all_frozen :
+  forallb (fun nc => c_frozen (snd nc) && c_extra_forbid (snd nc)) Generated.schema = true.
+Proof. exact all_frozen. Qed.
+Print Assumptions C18_all_frozen.
+
+(* iterators of one StepParameterSpaceIterator object do not interact: dropping from a history all
+   calls addressed to OTHER iterators leaves the observations of iterator i unchanged (C07) *)
+Theorem C18_iter_histories : forall p tp i h,
+  obs_kept p i (new_world tp) h
+  = snd (run p (new_world tp) (filter (fun o => negb (addressed_other i o)) h)).
+Proof. exact histories_independent. Qed.
+Print Assumptions C18_iter_histories.
+
+(* len(obj) and obj[z] answer after ANY history as on a fresh object *)
+Theorem C18_len_get_history_free : forall p tp h w bs,
+  run p (new_world tp) h = (w, bs) ->
+  snd (exec p w OpLen) = match top_len tp with Ok v => ObLen v | Raise x => ObRaise x end /\
+  forall z, snd (exec p w (OpGet z)) = match top_getitem tp z with Ok e => ObEnv e | Raise x => ObRaise x end.
+Proof. exact len_get_history_free. Qed.
+Print Assumptions C18_len_get_history_free.
+
+(* the _len memo of the iterator tree is transparent: it only ever holds what node_len computes *)
+Theorem C18_cache_transparent : forall t c, cache_ok t c ->
+  match cached_len c t with
+  | Ok (v, c') => node_len t = Ok v /\ cache_ok t c'
+  | Raise x => node_len t = Raise x
+  end.
+Proof. exact cache_transparent. Qed.
+Print Assumptions C18_cache_transparent.
+
+(* ------------------------------------------------------------------ non-vacuity *)
+Local Open Scope N_scope.
+(* "x{{ a . b }}y{{c}}" *)
+Definition ex_s : str := [120; 123;123; 32;97;32;46;32;98;32; 125;125; 121; 123;123;99;125;125].
+Definition sig_a : symtab := [([97;46;98], [65]); ([99], [67])].
+Definition sig_b : symtab := [([97;46;98], [66;66]); ([99], [68])].
+Definition sig_bad : symtab := [([99], [68])].
+
+(* hypotheses met: two slots for two expressions, dirty initial contents, a failing call in the
+   middle of the history *)
+Example C18_history_nonvacuous :
+  exists f, mk ascii_class ex_s = Ok f /\ n_exprs f = 2%nat /\
+    resolve_history f [Some [90;90]; None] [sig_a; sig_bad; sig_b; sig_a]
+    = [Ok [120;65;121;67]; Raise FormatStringError; Ok [120;66;66;121;68]; Ok [120;65;121;67]].
+Proof. eexists. split; [vm_compute; reflexivity|]. split; vm_compute; reflexivity. Qed.
+
+Example C18_slots_nonvacuous :
+  exists f, mk ascii_class ex_s = Ok f /\
+    resolve_slots sig_b (items f) [Some [90;90]; Some [89]] = ([Some [66;66]; Some [68]], Ok [120;66;66;121;68]).
+Proof. eexists. split; vm_compute; reflexivity. Qed.
+
+(* the length hypothesis is necessary: with a slot missing the model signals RuntimeError *)
+Example C18_slots_length_needed :
+  exists f, mk ascii_class ex_s = Ok f /\ snd (resolve_slots sig_b (items f) [None]) = Raise RuntimeError.
+Proof. eexists. split; vm_compute; reflexivity. Qed.
